@@ -149,7 +149,9 @@ def run_module(m, budget, oracle):
         import c01_canon
 
         res["values"] = {k: c01_canon.canon(v[0]) for k, v in inferred.items()}
-        res["values_str"] = {k: short(v[0], 120) for k, v in inferred.items()}
+        # no str() of every value here: the text of a value spells out the constraint DAG it carries as a
+        # tree, which is exponential for loop-carried and/or chains (the canonical form strips annotations)
+        res["values_str"] = {}
     if m.get("values_str_only"):
         import hashlib
         import re
